@@ -240,8 +240,12 @@ def map_units(func_path, names=None, extra=None, include_witness=False, config="
             jobs.append((func_path, name + "@opencl", meta["cl_unit"], meta, extra))
         else:
             jobs.append((func_path, name, meta["unit"], meta, extra))
-    if include_witness and "witness" in idx:
+    if include_witness is True and "witness" in idx:
         jobs.append((func_path, "_reparam_witness", idx["witness"]["unit"], idx["witness"], extra))
+    if include_witness == "sld":
+        if "witness_sld" not in idx:
+            raise AnalysisError("SLD-translation witness unit was not generated: %s" % (idx.get("errors", {}).get("_reparam_witness_sld", "")[-300:]))
+        jobs.append((func_path, "_reparam_witness_sld", idx["witness_sld"]["unit"], idx["witness_sld"], extra))
     results = {}
     nproc = min(16, os.cpu_count() or 4, max(1, len(jobs)))
     with ProcessPoolExecutor(max_workers=nproc) as pool:
